@@ -506,7 +506,9 @@ impl Local {
     #[inline]
     pub(crate) fn acquire_handle(&self) {
         let handle_count = self.handle_count.get();
-        debug_assert!(handle_count >= 1);
+        // A guard outlives the temporary handle it was pinned through (see `with_handle`), so a
+        // live `Local` has a handle or a guard, not necessarily a handle.
+        debug_assert!(handle_count >= 1 || self.guard_count.get() >= 1);
         self.handle_count.set(handle_count + 1);
     }
 
